@@ -759,9 +759,18 @@ impl Server {
                             should_close = true;
                         }
                         
-                        // Handle SYNC/PSYNC commands that need connection access
+                        // Handle SYNC/PSYNC commands that need connection access.
+                        // Replication handshakes are subject to requirepass like every other
+                        // command: an unauthenticated connection falls through to process_frame,
+                        // which answers NOAUTH.
                         if command == "SYNC" || command == "PSYNC" {
-                            sync_response = Some(self.handle_sync_command(&command, parts, id)?);
+                            let authenticated = self.config.password.is_none()
+                                || self.connections.with_connection(id, |conn| {
+                                    conn.state == ConnectionState::Authenticated
+                                }).unwrap_or(false);
+                            if authenticated {
+                                sync_response = Some(self.handle_sync_command(&command, parts, id)?);
+                            }
                         }
                     }
                 }
